@@ -480,6 +480,11 @@ fn edits(n: usize, idx: u64, g0: &Graph, mode: CmpMode, stamp: &mut u64, acc: &m
             let mut viols = rep.violations.clone();
             viols.extend(judge_offline(&g, &h, &disk_after, &rep, &exp, mode, acc));
             let case_hash = fnv(&format!("{}{:?}{:?}", idx, e, rep.choices));
+            if let Some((f, _)) = &first {
+                if rep.history_out.is_some() != f.history_out.is_some() {
+                    viols.push(mk("C14", "twin-did-not-complete", "".into(), "one schedule of this evaluation returned a history, another did not".to_string()));
+                }
+            }
             if let Some((f, fdisk)) = &first {
                 if rep.history_out.is_some() && f.history_out.is_some() {
                     if f.started_set() != rep.started_set() {
@@ -553,6 +558,9 @@ fn edits(n: usize, idx: u64, g0: &Graph, mode: CmpMode, stamp: &mut u64, acc: &m
                 let mut viols = r2.violations.clone();
                 let exp2 = expected(&g, h1, fdisk, mode, &BTreeSet::new());
                 viols.extend(judge_offline(&g, h1, &_d2, &r2, &exp2, mode, acc));
+                if r2.history_out.is_none() {
+                    viols.push(mk("C12", "rerun-did-not-complete", "".into(), format!("re-evaluating the unchanged project did not return a history (errors {:?})", r2.errors)));
+                }
                 if r2.history_out.is_some() {
                     for j in &r2.started {
                         match g.kind(j) {
